@@ -287,4 +287,128 @@ class C16e(Obligation):
                       'the order of completions does not depend on the iteration order of any set')
 
 
-OBLIGATIONS = [C16a, C16c, C16d, C16e]
+import pathlib  # noqa: E402
+
+
+class _File:
+    def __init__(self, path):
+        self.path = pathlib.PurePosixPath(path)
+
+    def read(self):
+        return b''
+
+
+class _Folder:
+    def __init__(self, path, folders=(), files=()):
+        self.path = path
+        self.folders = list(folders)
+        self.files = list(files)
+
+    def get_base_name(self):
+        return self.path.rsplit('/', 1)[-1]
+
+    def walk(self):
+        todo = [self]
+        while todo:
+            cur = todo.pop(0)
+            kept = list(cur.folders)
+            yield cur, kept, list(cur.files)
+            todo = kept + todo
+
+
+class C16f(Obligation):
+    id = 'C16.f'
+    title = 'the project walk yields files and folders in directory-listing order: no hash-ordered container decides which files come first (and so which survive the file limits)'
+    pattern = 'P3 (every iteration over a native set inside the walk takes a solver-chosen order; directory tree is a stub)'
+    nondet_sets = True
+    assumptions = (
+        'a folder with 5 python files, one other file and two sub-folders with 2 files each; which file / folder is ignored '
+        '(through except_paths) is symbolic; the ITERATION ORDER OF EVERY NATIVE set the interpreted code iterates is a '
+        'symbolic permutation (hash seed / addresses); membership tests are unaffected',
+    )
+
+    def scenario(self, ctx, cfg):
+        names = ['zeta.py', 'alpha.py', 'mid.pyi', 'beta.py', 'omega.py', 'notes.txt']
+        sub = [_Folder('/p/pkg_b', files=[_File('/p/pkg_b/m1.py'), _File('/p/pkg_b/m0.py')]),
+               _Folder('/p/pkg_a', files=[_File('/p/pkg_a/n1.py'), _File('/p/pkg_a/n0.py')])]
+        root = _Folder('/p', folders=sub, files=[_File('/p/' + n) for n in names])
+        ignored = ctx.choice('ignored_entry', 4)       # 0 none, 1 a file, 2 a folder, 3 both
+        ctx.int('unused')
+        except_paths = []
+        if ignored in (1, 3):
+            except_paths.append('/p/beta.py')
+        if ignored in (2, 3):
+            except_paths.append('/p/pkg_b')
+        ctx.force(jrefs.recurse_find_python_folders_and_files)
+        out = ctx.call(lambda: [(f.path if f is not None else None, str(fi.path) if fi is not None else None)
+                                for f, fi in jrefs.recurse_find_python_folders_and_files(root, except_paths)])
+        ctx.check(out.exc is None, 'never raises')
+        if out.exc is not None:
+            return
+        expected = []
+        todo = [root]
+        while todo:
+            cur = todo.pop(0)
+            for f in cur.files:
+                if str(f.path).endswith(('.py', '.pyi')) and str(f.path) not in except_paths:
+                    expected.append((None, str(f.path)))
+            kept = [d for d in cur.folders if d.path not in except_paths]
+            for d in kept:
+                expected.append((d.path, None))
+            todo = kept + todo
+        ctx.check(out.value == expected, 'files and folders come in listing order, ignored ones left out')
+
+
+import jedi  # noqa: E402
+
+
+class _StateProxy:
+    """the real inference state; records the order in which its attributes are used"""
+
+    def __init__(self, real, log):
+        object.__setattr__(self, '_real', real)
+        object.__setattr__(self, '_log', log)
+
+    def __getattr__(self, name):
+        if name.startswith('_pysym') or (name.startswith('__') and name.endswith('__')):
+            raise AttributeError(name)      # probes of the symbolic interpreter are not uses by jedi
+        self._log.append(name)
+        return getattr(self._real, name)
+
+    def __setattr__(self, name, value):
+        setattr(self._real, name, value)
+
+
+QUERIES = ('complete', 'infer', 'goto', 'help', 'get_references', 'get_signatures')
+
+
+class C16g(Obligation):
+    id = 'C16.g'
+    title = 'every positional query starts from fresh recursion budgets: the first thing it does with the inference state is the per-query reset'
+    pattern = 'P5 (real Script on a small program, every in-range cursor as a solver-chosen case; the inference state is wrapped by a recording proxy)'
+    interpret_modules = ('obligations',)
+    assumptions = (
+        'program: a function, a call of it with a cursor-able argument list; (line, column) range over all positions of the '
+        'text; the query itself runs natively; whatever it returns or raises in this sandbox (no '
+        'typeshed) is irrelevant here - only the order of uses of the inference state is observed',
+    )
+
+    def configs(self, tier):
+        return [dict(query=q) for q in QUERIES]
+
+    def scenario(self, ctx, cfg):
+        src = 'def ident(v):\n    return v\nr = ident(ident)(1, \n'
+        script = jedi.Script(src)
+        log = []
+        script._inference_state = _StateProxy(script._inference_state, log)
+        lines = src.split('\n')
+        line = ctx.choice('line_minus_1', 3) + 1
+        column = ctx.choice('column', len(lines[line - 1]) + 1)
+        ctx.int('unused')
+        out = ctx.call(getattr(script, cfg['query']), line, column)
+        ctx.observe(log[:2], 'first uses')
+        ctx.check(len(log) > 0 and log[0] == 'reset_recursion_limitations',
+                  'the per-query reset comes before any other use of the inference state')
+
+
+OBLIGATIONS = [C16a, C16c, C16d, C16e, C16f, C16g]
